@@ -322,5 +322,5 @@ def gen_traces(n, seed):
     import multiprocessing as mp
     rng = random.Random(seed)
     jobs = [(rng.randrange(2**31), i) for i in range(n)]
-    with mp.get_context("fork").Pool(min(common.NCPU, 8)) as pool:
+    with common.pool(min(common.NCPU, 8)) as pool:
         return pool.map(_one, jobs)
